@@ -564,7 +564,7 @@ class StackWorld(object):
       want = {'ok': 'value', 'empty': 'value', 'declared': 'declared', 'appexc': 'appexc',
               'nack': 'servererror', 'rerror': 'servererror', 'rerr': 'servererror',
               'bad_rerr': 'servererror'}.get(K)
-      if K == 'declared' and c.method != 'risky':
+      if K == 'declared' and c.method not in ('risky', 'guard'):
         want = 'value'
       prop = 'C14'
       if want == 'servererror' or (o == 'servererror'):
@@ -591,7 +591,7 @@ class StackWorld(object):
       # same class: compare contents
       if o == 'value':
         exp = self.expected_value(c, r, K)
-        if not self.values_equal(obj, exp) and c.method == 'poke':
+        if not self.values_equal(obj, exp) and c.method in ('poke', 'guard'):
           REC.violation('C14', 'void_not_none',
                         'call %s (void method) returned %r instead of None' % (c.id, obj))
         elif not self.values_equal(obj, exp):
@@ -614,7 +614,7 @@ class StackWorld(object):
 
   def expected_value(self, c, r, K):
     arg = c.args[0]
-    if c.method == 'poke':
+    if c.method in ('poke', 'guard'):
       return None
     if K == 'empty':
       return ''
